@@ -232,9 +232,12 @@ class SimPull(Component):
         t0 = dt(self.world.t0) if self.world.t0 is not None else None
         for i in s["inputs"]:
             self.inputs.add(name=i["name"], time=t0, grid=NoGrid(), units=i.get("units"))
+        # "out_time": "unset" - the outputs take their reference time from the first consumer (which may start later
+        # than the composition; requests before that time are still requests for exactly that time)
+        to = None if s.get("out_time") == "unset" else t0
         for oi, o in enumerate(s["outputs"]):
             self.outputs.add(CallbackOutput(callback=lambda caller, t, oi=oi: self._provide(oi, t),
-                                            name=o["name"], time=t0, grid=NoGrid(),
+                                            name=o["name"], time=to, grid=NoGrid(),
                                             units=o.get("units", "")))
         self.create_connector(pull_data=[i["name"] for i in s["inputs"]])
 
@@ -266,6 +269,7 @@ class SimPull(Component):
                 self.pulls[i["name"]].append((len(self.calls) - 1, tk, mag(d)))
                 vals.append(mag(d))
         else:
+            ins.REC and ins.REC.ev("PROVIDER_CONNECT", self._name, o["name"], tk, None)
             if self.connector is None or not self.connector.all_data_pulled:
                 return None
             vals = [mag(self.connector.in_data[i["name"]]) for i in self.spec["inputs"]]
